@@ -126,11 +126,13 @@ pub fn run_case(gd: &GenDict, ignore_space: bool, mgl: usize, sentences: &[Strin
     let built = gd.build();
     let head = |built: u8, conn: &str, space_res: u8, sents: &str| {
         format!(
-            "(Build_tokcase {} {} {} {} {} {} {} {} {} {})",
+            "(Build_tokcase {} {} {} {} {} {} {} {} {} {} @@EXTRA@@)",
             gd.coq_chardef(), gd.coq_unk(), GenDict::coq_rows(&gd.sys),
             copt(&gd.user, |u| GenDict::coq_rows(u)), built, conn, cbool(ignore_space), space_res, mgl, sents
         )
     };
+    let fin = |t: String, extra: &Vec<Vec<u64>>| t.replace("@@EXTRA@@", &clist(extra, |v| clist(v, |x| cn(x))));
+    let mut extra: Vec<Vec<u64>> = vec![];
     let human = format!(
         "char.def={} unk.def={} lex.csv={} user={:?} matrix.def={} ignore_space={} max_grouping_len={} sentences={:?}",
         json_str(&gd.char_def()), json_str(&GenDict::rows_csv(&gd.unk)), json_str(&GenDict::rows_csv(&gd.sys)),
@@ -138,14 +140,14 @@ pub fn run_case(gd: &GenDict, ignore_space: bool, mgl: usize, sentences: &[Strin
     );
     let dict = match built {
         Outcome::Ok(d) => d,
-        Outcome::Err => return CaseOut { term: head(1, &gd.coq_matrix(), 0, "[]"), human, built: 1, sents: vec![] },
-        Outcome::Panic => return CaseOut { term: head(2, &gd.coq_matrix(), 0, "[]"), human, built: 2, sents: vec![] },
+        Outcome::Err => return CaseOut { term: fin(head(1, &gd.coq_matrix(), 0, "[]"), &extra), human, built: 1, sents: vec![] },
+        Outcome::Panic => return CaseOut { term: fin(head(2, &gd.coq_matrix(), 0, "[]"), &extra), human, built: 2, sents: vec![] },
     };
     let conn = coq_conn(&dict);
     let tokenizer = vibrato::Tokenizer::new(dict).max_grouping_len(mgl);
     let tokenizer = match tokenizer.ignore_space(ignore_space) {
         Ok(t) => t,
-        Err(_) => return CaseOut { term: head(0, &conn, 1, "[]"), human, built: 0, sents: vec![] },
+        Err(_) => return CaseOut { term: fin(head(0, &conn, 1, "[]"), &extra), human, built: 0, sents: vec![] },
     };
     let mut worker = tokenizer.new_worker();
     if counting {
@@ -209,8 +211,55 @@ pub fn run_case(gd: &GenDict, ignore_space: bool, mgl: usize, sentences: &[Strin
             }
         }
     }
+    if counting && sents.iter().all(|o| o.outcome == 0) {
+        // the reorder tool: statistics -> id orders; then the map tool on a rebuilt dictionary
+        let probs = std::panic::catch_unwind(std::panic::AssertUnwindSafe(|| worker.compute_connid_probs()));
+        if let Ok((lp, rp)) = probs {
+            let lo: Vec<u64> = lp.iter().map(|x| x.0 as u64).collect();
+            let ro: Vec<u64> = rp.iter().map(|x| x.0 as u64).collect();
+            let mut flags = vec![0u64, 0u64]; // accepted by map, same tokenization afterwards
+            if let Outcome::Ok(d2) = gd.build() {
+                let l16: Vec<u16> = lo.iter().map(|&x| x as u16).collect();
+                let r16: Vec<u16> = ro.iter().map(|&x| x as u16).collect();
+                let mapped = guarded(move || d2.map_connection_ids_from_iter(l16, r16));
+                if let Outcome::Ok(d3) = mapped {
+                    flags[0] = 1;
+                    let t2 = vibrato::Tokenizer::new(d3).max_grouping_len(mgl);
+                    if let Ok(t2) = t2.ignore_space(ignore_space) {
+                        let same = sents.iter().all(|o| {
+                            let r = std::panic::catch_unwind(std::panic::AssertUnwindSafe(|| {
+                                let mut w = t2.new_worker();
+                                w.reset_sentence(&o.text);
+                                w.tokenize();
+                                (0..w.num_tokens())
+                                    .map(|i| {
+                                        let t = w.token(i);
+                                        (t.range_char(), t.feature().to_string(), t.word_cost(), t.total_cost())
+                                    })
+                                    .collect::<Vec<_>>()
+                            }));
+                            let orig: Vec<_> = {
+                                let mut w = tokenizer.new_worker();
+                                w.reset_sentence(&o.text);
+                                w.tokenize();
+                                (0..w.num_tokens())
+                                    .map(|i| {
+                                        let t = w.token(i);
+                                        (t.range_char(), t.feature().to_string(), t.word_cost(), t.total_cost())
+                                    })
+                                    .collect()
+                            };
+                            r.map_or(false, |v| v == orig)
+                        });
+                        flags[1] = same as u64;
+                    }
+                }
+            }
+            extra = vec![lo, ro, flags];
+        }
+    }
     let sents_t = clist(&sents, sentobs_term);
-    CaseOut { term: head(0, &conn, 0, &sents_t), human, built: 0, sents }
+    CaseOut { term: fin(head(0, &conn, 0, &sents_t), &extra), human, built: 0, sents }
 }
 
 #[allow(dead_code)]
